@@ -15,7 +15,10 @@
 (* Law instances on real-valued data (M3): the harness measures the discrepancy between two *)
 (* real computations named by the law, in units of 10^-12 of the data scale, and the        *)
 (* specification judges it:                                                                 *)
-(*   "law"    wls, fixed, zerow, exact, fitxy, tscoeff, jumpbelow, jumpabove, roundtrip     *)
+(*   "law"    wls, fixed, zerow, exact, fitxy, tscoeff, jumpbelow, jumpabove, roundtrip,    *)
+(*            unchanged (CallerArraysUnchanged)                                             *)
+(* Call histories: consecutive "fit" records with the same hist number are func_fit calls   *)
+(* that reused the same array objects; each is judged on the arguments the caller supplied. *)
 EXTENDS TraceSetPoly, Json, IOUtils, SequencesExt
 Recs == JsonDeserialize(IOEnv.VERIF_TRACE)
 VARIABLES i, ok, why
@@ -83,9 +86,15 @@ LawTol(law, width) ==
                 [] law = "jumpbelow" -> 0
                 [] law = "jumpabove" -> 1000
                 [] law = "roundtrip" -> 100000
+                [] law = "unchanged" -> 0         \* disc = number of caller-owned arrays that differ after the call
   IN IF width = 32 /\ base > 0 THEN 100000000 ELSE base                     \* float32: 1e-4
-LawNames == {"wls", "fixed", "zerow", "exact", "fitxy", "tscoeff", "jumpbelow", "jumpabove", "roundtrip"}
+LawNames == {"wls", "fixed", "zerow", "exact", "fitxy", "tscoeff", "jumpbelow", "jumpabove", "roundtrip", "unchanged"}
+(* CallerArraysUnchanged ("unchanged"): every array the caller handed to func_fit (x, y, invvar, ia, inputans),  *)
+(* to TraceSet / xy2traceset (xpos, ypos, invvar, inmask), to traceset2xy (xpos, the coefficients) or to a basis  *)
+(* function (x) is bit-identical after the call.                                                                 *)
+(* r.crash: the real code raised while the instance was being measured - never acceptable.                       *)
 LawWhy(r) == IF r.law \notin LawNames THEN "unknownlaw"
+             ELSE IF r.crash THEN "crash"
              ELSE IF ~r.pre THEN "precondition"
              ELSE IF r.disc > LawTol(r.law, r.width) THEN r.law
              ELSE ""
@@ -102,7 +111,8 @@ Why(r) == CASE r.kind = "basis" -> BasisWhy(r)
 MinInstances == 5
 Count(law) == Cardinality({k \in 1..Len(Recs) : Recs[k].kind = "law" /\ Recs[k].law = law /\ Recs[k].pre})
 Triggered == {Recs[k].law : k \in {n \in 1..Len(Recs) : Recs[n].kind = "law"}}
-ASSUME \A law \in Triggered : Count(law) >= MinInstances
+Crashed == \E k \in 1..Len(Recs) : Recs[k].kind = "law" /\ Recs[k].crash
+ASSUME Crashed \/ \A law \in Triggered : Count(law) >= MinInstances
 
 Init == /\ i \in 1..Len(Recs)
         /\ why = Why(Recs[i])
